@@ -172,6 +172,27 @@ def run(ctx):
     n_api = api.scan(prog, list(prog.modules.values()), ob_api)
     ctx.floor("C20.4", 800)
 
+    # C20.4 R-API argument domain: torch's DataLoader rejects batch_size=0 (ValueError at construction), and a data set
+    # can legitimately be empty (val_size=0): a batch size computed from a length is guarded against the empty case
+    n_dl = 0
+    for f_ in prog.all_functions:
+        inl_ = None
+        for c_ in walk_no_nested(f_.node):
+            if not (isinstance(c_, ast.Call) and (call_name(c_) or "").split(".")[-1] == "DataLoader"):
+                continue
+            bs_ = next((k_.value for k_ in c_.keywords if k_.arg == "batch_size"), c_.args[1] if len(c_.args) > 1 else None)
+            if bs_ is None:
+                continue
+            n_dl += 1
+            if inl_ is None:
+                from ..canon import single_assignments as _sa20
+                inl_ = _sa20(f_.node)
+            e_ = inl_.get(bs_.id, bs_) if isinstance(bs_, ast.Name) else bs_
+            lens_ = [x_ for x_ in ast.walk(e_) if isinstance(x_, ast.Call) and isinstance(x_.func, ast.Name) and x_.func.id == "len"]
+            guarded_ = (not lens_) or (isinstance(e_, ast.IfExp) and any(src(l_) in src(e_.test) or src(l_.args[0]) in src(e_.test) for l_ in lens_)) or (isinstance(e_, ast.BoolOp) and isinstance(e_.op, ast.Or)) or (isinstance(e_, ast.Call) and isinstance(e_.func, ast.Name) and e_.func.id == "max" and any(isinstance(a_, ast.Constant) and isinstance(a_.value, int) and a_.value >= 1 for a_ in e_.args))
+            ctx.ob("R-API", "C20.4", f_, "a DataLoader batch size computed from a length is guarded against the empty data set (batch_size=0 raises in torch; val_size=0 is a supported option)", guarded_, f"batch_size = `{src(e_)[:70]}`", node=c_)
+    ctx.require(n_dl >= 2, f"only {n_dl} DataLoader constructions found")
+
     # C20.4 R-UNDEF -----------------------------------------------------
     reported = set()
     for f, name, x in undef.scan(prog, fns):
